@@ -1,5 +1,5 @@
 """C16 — AsyncWriter delivers whole frames in order under short writes and cancel+sync."""
-import itertools
+import itertools, zlib
 from verifkit.runner import Stream
 from verifkit import gen
 from verifkit import frameio as F
@@ -79,7 +79,14 @@ def judge(op, impl, model, spec):
         return "violation"
     disciplined, dirty, pending, cur, done = True, False, None, None, []
     good = True
+    accepted = []                   # payloads the writer took on (the completeness clause counts these, under the limit in force at the time)
     for a, t in zip(acts, toks):
+        if a[0] == "m":
+            # set_max_len: changes the limit for values written from now on; a frame in flight is not touched
+            good &= t == "-"
+            pending = None
+            maxlen = int(a[1:])
+            continue
         if a[0] == "w":
             if dirty:
                 disciplined = False      # outside the property's precondition: only the model comparison applies
@@ -92,6 +99,7 @@ def judge(op, impl, model, spec):
                 good &= t == "w:err:len"
             else:
                 cur = p
+                accepted.append(p)
                 if t == "P":
                     pending, dirty = "w", True
                 elif t == f"w:ok:{len(p)}":
@@ -135,7 +143,7 @@ def judge(op, impl, model, spec):
             else:
                 good &= rest == b""
         if F.ann(op, "complete") == "1":
-            ok_ps = [F.payload(v) for v in vs if F.payload(v) is not None and len(F.payload(v)) <= maxlen]
+            ok_ps = accepted if any(a[0] == "m" for a in acts) else [F.payload(v) for v in vs if F.payload(v) is not None and len(F.payload(v)) <= maxlen]
             good &= (not dirty) and done == ok_ps
             for ev, cls in (("e", "other"), ("i", "intr"), ("z", "zero")):
                 n = sum(1 for e in script if e == ev or (cls == "zero" and e == 0))
@@ -286,10 +294,48 @@ def big_ops(rng, tier):
     return ops
 
 
+def setmax_ops(rng, tier):
+    """set_max_len between a cancelled write and the sync that must complete it (and at other quiet moments): the limit applies to
+    values written afterwards; the frame in flight is completed unchanged"""
+    ops = []
+    for _ in range(400 if tier == "quick" else 6000):
+        vs = [F.rand_val(rng, rng.choice([5, 40, 300])) for _ in range(rng.randint(1, 4))]
+        ml0 = 1000
+        evs, acts = [], []
+        for i, v in enumerate(vs):
+            p = F.payload(v)
+            n = 4 + len(p)
+            cut = rng.randint(0, n - 1)
+            # the write is accepted, `cut` bytes go out, Pending; the caller drops the future, lowers the limit, then syncs
+            evs += ([cut] if cut else []) + ["p"] + [99999]
+            acts += [f"w{i}"] + (["p"] if False else []) + ["d", f"m{rng.choice([0, 1, 3, max(len(p) - 1, 0), len(p), 1000])}", "s"]
+            acts += [f"m{ml0}"]
+        evs += tail(len(vs))
+        ops.append(f"awrite {ml0} {F.vals_tok(vs)} {F.script_tok(evs)} {','.join(acts)} #k=sched #complete=1")
+    return ops
+
+
+def flush_ops(ops, rng, every=9):
+    """every 9th scenario once more over a sink whose poll_flush misbehaves (write / sync never flush, so nothing may change)"""
+    out = []
+    for op in ops:
+        if zlib.crc32(op.encode()) % every == 0 and op.startswith("awrite "):
+            out.append(f"awritef {1 + zlib.crc32(op.encode()) // every % 3} " + op[7:])
+    return out
+
+
+def flush_plain(op):
+    w = op.split(" ", 2)
+    return ("awrite " + w[2]) if w[0] == "awritef" else op
+
+
 def mk(name, ops, rule):
     if name != "replay":
         ops = F.ctor_expand(ops)      # every 4th scenario once more through with_buffer(..) with some buffer
-    s = Stream(name, "hio", ops, model_ops=[F.ctor_plain(o)[0] for o in ops], judge=F.ctor_judge(judge), rule=rule,
+        ops = ops + flush_ops(ops, None)
+    fj = F.ctor_judge(judge)
+    s = Stream(name, "hio", ops, model_ops=[F.ctor_plain(flush_plain(o))[0] for o in ops],
+               judge=lambda op, impl, model, spec: fj(flush_plain(op), impl, model, spec), rule=rule,
                nontrivial=lambda op, impl: "ok" in impl or "err:" in impl)
     s.shrinkable = False
     return s
@@ -302,6 +348,7 @@ def streams(rng, tier):
         mk("rejected-values", reject_ops(rng, tier), "encode failures and over-long values between good ones, idle syncs; oracle: they add nothing"),
         mk("random-walks", random_ops(rng, tier), "seeded random disciplined walks judged by the oracle; undisciplined ones against the model"),
         mk("big-frames", big_ops(rng, tier), "values of 65537..100005 bytes through one writer in 20 KB..1 MB pieces with Pendings, error events and drop-then-sync; oracle: exact frames, lengths"),
+        mk("set-max-len", setmax_ops(rng, tier), "write accepted, part of the frame out, Pending, future dropped, set_max_len(smaller), sync: the frame in flight is completed unchanged; the new limit applies to later values"),
         mk("long-streams", long_ops(rng, tier), "31..300 values through one writer under chunking, Pendings, error events and drop-then-sync; oracle: exact frames, lengths"),
     ]
 
